@@ -93,7 +93,8 @@ class G:
         cands = ["add_constraint", "add_constraints", "refine_with_constraint", "refine_with_constraints", "add_generator", "add_generators",
                  "intersection_assign", "poly_hull_assign", "topological_closure_assign",
                  "add_space_dimensions_and_embed", "add_space_dimensions_and_project", "poly_difference_assign", "time_elapse_assign",
-                 "add_recycled_constraints"]
+                 "add_recycled_constraints", "simplify_using_context_assign", "poly_hull_assign_if_exact",
+                 "refine_with_congruence", "add_congruence", "refine_with_congruences"]
         if n > 0:
             cands += ["affine_image", "affine_image", "affine_preimage", "generalized_affine_image", "generalized_affine_preimage",
                       "bounded_affine_image", "bounded_affine_preimage", "unconstrain", "unconstrain_set",
@@ -111,8 +112,15 @@ class G:
             return "%s %s" % (p, self.gen(n, topo))
         if op == "add_generators":
             return "%s %s" % (p, self.gens(n, topo, 1, 3))
-        if op in ("intersection_assign", "poly_hull_assign", "poly_difference_assign", "time_elapse_assign"):
+        if op in ("intersection_assign", "poly_hull_assign", "poly_difference_assign", "time_elapse_assign",
+                  "simplify_using_context_assign", "poly_hull_assign_if_exact"):
             return "%s %d" % (p, r.choice(same))
+        if op in ("refine_with_congruence", "add_congruence"):
+            m = r.choice([0, 0, 1, 2, 3]) if op == "refine_with_congruence" else 0
+            return "%s %d %d %s" % (p, m, self.coef(-3, 3), " ".join(map(str, self.vec(n, nz=False))))
+        if op == "refine_with_congruences":
+            k = r.randint(1, 2)
+            return "%s %d %s" % (p, k, " ".join("%d %d %s" % (r.choice([0, 0, 2, 3]), self.coef(-3, 3), " ".join(map(str, self.vec(n, nz=False)))) for _ in range(k)))
         if op == "concatenate_assign":
             ys = [y for y in dims if topos[y] == topo and dims[y] + n <= self.maxdim + 1]
             if not ys: return "op %d topological_closure_assign" % x
